@@ -4,6 +4,11 @@ HERE = os.path.dirname(os.path.dirname(os.path.abspath(__file__)))
 BASE = json.load(open("/root/.vp/BASELINE.json"))["cmd"]
 
 CHECKS = {
+ "C11": dict(
+   technique="bounded exhaustive enumeration of stored-row tuples over {-1,0,1}^d x assignments x compositions x LSH settings x n_jobs x queries (stored, scaled, grid, zero) against an exact-rational sign-pattern oracle built from the bandit's own hyperplanes",
+   text="Every tuple of up to n vectors of {-1,0,1}^d (zero vector included) is stored through every composition into fit + partial_fit*, for three (n_dimensions, n_tables) settings and hashing with n_jobs 1 and 2; for every query of the alphabet the expectations must equal the learning policy trained on exactly the rows whose exact sign pattern collides with the query's in at least one table, NaN if none; scaled queries must agree with the original and a stored row must find itself.",
+   note="planes are read from the fitted bandit (they are random but fixed at fit time); projections are evaluated in exact rationals; d=1 n<=4, d=2 n<=3, d=3 n<=2 (quick); more seeds and rows in thorough",
+   ref="DESIGN.md section 7 (C11)"),
  "C03": dict(
    technique="bounded exhaustive enumeration of stored-row tuples x arm assignments x compositions x metric x radius/k x policy x grid queries against an integer-arithmetic neighbourhood oracle (reference policy re-trained on the oracle's rows)",
    text="Every tuple of up to n grid points as stored contexts, with arm assignments, compositions into fit + partial_fit*, four metrics, radii on exact distance values (boundary included, sqrt(2) for euclidean), every k, and every grid point as query (batch and single row) is executed; expectations must equal the library's learning policy trained from scratch on exactly the oracle's neighbourhood (any admissible KNearest tie-break), empty neighbourhoods give NaN and the replicated empty-neighbourhood draw.",
